@@ -16,6 +16,7 @@ RULE = ("random sequences of all classes (quick <= 80, thorough <= 200 residues)
         "of the 20 amino acids (disjoint pairs; empty group; full alphabet; complement; mixed case; list/tuple/set/str "
         "containers; duplicates) + invalid groups; distinct = distinct (sequence, group1, group2); non-trivial = the "
         "kappa_X value is defined (not -1)")
+RULE += ("; added after the mutation rounds: objects with phosphosites set; numpy.str_ group members; short linkers whose recoded ratio falls in (1,1.1); the first cases of every shard are judged again at its end")
 EXHAUSTIVE = {"quick": False, "thorough": False}
 ASSUMPTIONS = [
     "identities between two library results are judged to 1e-9 relative (recoding swaps which class is called "
